@@ -10,12 +10,20 @@ RULE = ("layout = one partition's log, written through the public Database API: 
         "A single-node ClusterActor is started on the database (its ConfirmationActor derives the watermark from the on-disk counts) and asked: GetPartitionSequence, GetStreamVersion for streams 0..2, "
         "ReadEvent for the id of every position (long logs: 9 positions) and one unknown id, 14 (quick) / 40 (thorough) ReadPartition and as many ReadStream requests with start in {0, n, n+1, u64::MAX, random}, "
         "end in {none, = start, u64::MAX, random}, count in {0, 1, 1000, u64::MAX, random}. A case is non-trivial when the log has an event at or after the watermark (something must be withheld). "
+        "Second family (lv): the watermark is built LIVE. The log is written with (mostly) count-0 events (a third of the scenarios with a confirmed prefix already on disk), the node is started, "
+        "and ConfirmTransaction messages - the path a coordinator's confirmation takes on a replica: on-disk count, then the report to the ConfirmationActor - are delivered to the running "
+        "ClusterActor: per transaction nothing at all (write failed quorum), only a sub-quorum count, one quorum count, an exact duplicate, a higher count before a lower quorum count, or a stale "
+        "sub-quorum count after the quorum one; in order, reversed or shuffled; 8 (quick) / 40 (thorough) scenarios per rf with up to 9 / 14 deliveries, every 8th with a 52..60-transaction log whose "
+        "first 54 transactions are confirmed first (more than one batch of 50 commits below the watermark). After the start and after EVERY delivery (once GetPartitionSequence has settled) all five "
+        "reads are asked: GetPartitionSequence, GetStreamVersion x3, ReadEvent for every position, 5 ReadPartition and 5 ReadStream requests around the current watermark. "
         "distinct = distinct case strings.")
 ASSUMPTIONS = [
     "Model/ClusterRead.v is hand-written from crates/sierradb-cluster/src/read.rs:119-249, 451-563, 596-715, 948-1103; tie = this differential run",
     "the storage iterators are modelled by what they yield (commits in order; forward from a position the first commit is the suffix of its transaction; in reverse one suffix-commit per event); "
     "their correctness is C03's subject. Batch sizes are an oracle input of the model, every theorem holds for every batching; the driver runs the model with full batches",
-    "the watermark is taken from Model/Watermark.v (wm_initialize on the on-disk counts, C08_fresh_start_exact); the monitor recomputes it from the layout independently",
+    "the watermark is taken from Model/Watermark.v: wm_initialize on the on-disk counts (C08_fresh_start_exact) and, for the live family, wm_step folded over the delivered reports "
+    "(cr_live_watermark, C07_live_watermark_exact); the monitor recomputes it independently as the longest prefix whose best count (on disk at start-up or delivered) reaches quorum",
+    "live family: deliveries are sequential (each ConfirmTransaction is answered and the published watermark has settled before the next); concurrent deliveries are covered by C08's order-independence theorem, not executed",
     "single node: ReadEvent's replica fall-back, request forwarding and remote reads are not exercised (no second ClusterActor can exist in the sandbox)",
     "u64 overflow is not modelled: `end + 1` saturates in the code, which is invisible below a watermark < 2^64",
 ]
@@ -35,9 +43,24 @@ def _wm(rf, evs):
     q, w = _quorum(rf), 0
     while w < len(evs) and evs[w][1] >= q: w += 1
     return w
+def _spans(layout):
+    """(first sequence, size) of every transaction"""
+    out, pos = [], 0
+    if layout != "-":
+        for t in layout.split(","):
+            n = len(t.split(":")[1]); out.append((pos, n)); pos += n
+    return out
+def _deliveries(d):
+    return [] if d == "-" else [tuple(int(x) for x in t.split(":")) for t in d.split(",")]
 def _parse(c):
+    """-> kind of read, rf, events as (stream, best count known: on disk at start-up or delivered), args, live?"""
     t = c.split()
-    return t[0], int(t[1]), _layout(t[2]), t[3:]
+    if t[0] != "lv": return t[0], int(t[1]), _layout(t[2]), t[3:], False
+    evs = _layout(t[2]); sp = _spans(t[2])
+    for tx, cnt in _deliveries(t[3]):
+        f, n = sp[tx]
+        for i in range(f, f + n): evs[i] = (evs[i][0], max(evs[i][1], cnt))
+    return t[4], int(t[1]), evs, t[5:], True
 def _seqs(o):
     body = o.split(" more=")[0].strip()
     return [x for x in body[1:-1].split(",") if x]
@@ -45,8 +68,8 @@ def _seqs(o):
 def model_case(c): return c
 
 def monitor(c, o):
-    kind, rf, evs, a = _parse(c)
-    W = _wm(rf, evs)
+    kind, rf, evs, a, live = _parse(c)
+    W = _wm(rf, evs)          # the longest prefix whose events carry (or were delivered) a quorum confirmation count
     if o == "PANIC" or o == "TIMEOUT" or o.startswith("ERR") or o == "BADCASE":
         return ("error", f"{c[:160]}: {o}")
     if kind == "rp":
@@ -70,7 +93,7 @@ def monitor(c, o):
     return None
 
 def nontrivial(c, o):
-    kind, rf, evs, a = _parse(c)
+    kind, rf, evs, a, live = _parse(c)
     return _wm(rf, evs) < len(evs)
 
 def shrink_key(c): return (len(c.split()[2]), len(c), c)
@@ -88,9 +111,17 @@ def _big(x): return len(x) > 12
 def coq_goal(c, e):
     if e is None or e.startswith(("ERR", "BADCASE")): return None
     t = c.split()
-    if len(t[2]) > 120 or any(_big(x) for x in t[3:]): return None
+    live = t[0] == "lv"
+    if len(t[2]) > 120 or any(_big(x) for x in (t[5:] if live else t[3:])): return None
     log = _coq_log(t[2]); rf = t[1]
-    W = f"(cr_watermark {rf} {log})"
+    if live:
+        sp = _spans(t[2]); ds = _deliveries(t[3])
+        if len(ds) > 20: return None
+        reps = " ++ ".join(f"cr_confirm_reports {sp[tx][0]} {sp[tx][1]}%nat {cnt}" for tx, cnt in ds) or "[]"
+        W = f"(cr_live_watermark {rf} {log} ({reps}))"
+        t = [t[4], t[1], t[2]] + t[5:]
+    else:
+        W = f"(cr_watermark {rf} {log})"
     opt = lambda x: "None" if x == "-" else f"(Some {x})"
     if t[0] == "rp":
         acc = "; ".join(_seqs(e)); more = "true" if e.endswith("more=1") else "false"
@@ -105,15 +136,34 @@ def coq_goal(c, e):
     return None
 
 def distribution(pairs):
-    d = {"rp": 0, "rs": 0, "re": 0, "sv": 0, "ps": 0, "layouts": 0, "layouts.unconfirmed_tail": 0, "layouts.wm_inside_txn": 0, "layouts.long": 0,
-         "rp.nonempty": 0, "rs.nonempty": 0, "more=1": 0, "errors": 0}
-    seen = set()
+    d = {"rp": 0, "rs": 0, "re": 0, "sv": 0, "ps": 0, "startup.cases": 0, "live.cases": 0, "layouts": 0, "layouts.unconfirmed_tail": 0, "layouts.wm_inside_txn": 0,
+         "layouts.long": 0, "live.scenarios": 0, "live.delivery_steps": 0, "live.steps_with_unconfirmed_hole_and_confirmed_behind": 0, "live.duplicate_deliveries": 0,
+         "live.stale_lower_deliveries": 0, "rp.nonempty": 0, "rs.nonempty": 0, "more=1": 0, "errors": 0}
+    seen, steps, scen = set(), set(), set()
     for c, o in pairs:
         t = c.split()
-        d[t[0]] = d.get(t[0], 0) + 1
+        live = t[0] == "lv"
+        kind = t[4] if live else t[0]
+        d[kind] = d.get(kind, 0) + 1
+        d["live.cases" if live else "startup.cases"] += 1
         if o.startswith(("ERR", "PANIC", "TIMEOUT")): d["errors"] += 1
-        if t[0] in ("rp", "rs") and not o.startswith("[]"): d[t[0] + ".nonempty"] += 1
+        if kind in ("rp", "rs") and not o.startswith("[]"): d[kind + ".nonempty"] += 1
         if o.endswith("more=1"): d["more=1"] += 1
+        if live:
+            scen.add((t[1], t[2]))
+            key = (t[1], t[2], t[3])
+            if key in steps: continue
+            steps.add(key)
+            d["live.delivery_steps"] += 1
+            _, rf, evs, _, _ = _parse(c)
+            q = _quorum(rf); W = _wm(rf, evs)
+            if any(k >= q for _, k in evs[W:]): d["live.steps_with_unconfirmed_hole_and_confirmed_behind"] += 1
+            ds = _deliveries(t[3])
+            if ds:
+                last = ds[-1]
+                if last in ds[:-1]: d["live.duplicate_deliveries"] += 1
+                if any(tx == last[0] and cnt > last[1] for tx, cnt in ds[:-1]): d["live.stale_lower_deliveries"] += 1
+            continue
         key = (t[1], t[2])
         if key in seen: continue
         seen.add(key)
@@ -121,12 +171,9 @@ def distribution(pairs):
         evs = _layout(t[2]); W = _wm(int(t[1]), evs)
         if W < len(evs): d["layouts.unconfirmed_tail"] += 1
         if len(evs) > 50: d["layouts.long"] += 1
-        pos = 0
-        if t[2] != "-":
-            for tx in t[2].split(","):
-                n = len(tx.split(":")[1])
-                if pos < W < pos + n: d["layouts.wm_inside_txn"] += 1
-                pos += n
+        for f, n in _spans(t[2]):
+            if f < W < f + n: d["layouts.wm_inside_txn"] += 1
+    d["live.scenarios"] = len(scen)
     return d
 
 LEVEL_TEXT = ("Machine-checked proof (Coq) about the model of the five cluster read paths: every event ReadPartition / ReadStream return lies below the watermark, with no assumption on what the "
@@ -134,8 +181,9 @@ LEVEL_TEXT = ("Machine-checked proof (Coq) about the model of the five cluster r
               "(C07_partition_commits_wf, C07_stream_commits_wf) - the result is exactly the first `count` events of the requested range clipped to below the watermark "
               "(C07_partition_exact, C07_stream_exact) and has_more is false only if nothing confirmed in range was left out (C07_partition_has_more, C07_stream_has_more); GetStreamVersion is the "
               "version of the last stream event below the watermark (C07_stream_version_exact/_gated), ReadEvent answers exactly for stored events below the watermark (C07_read_event_gated/_complete), "
-              "GetPartitionSequence is watermark-1 (C07_partition_sequence_exact); and everything below the watermark a node derives from its log carries a quorum count "
-              "(C07_below_watermark_confirmed, via C08). Tie to the code: differential run of a real in-process ClusterActor over generated logs against the extracted model, plus a direct gating monitor.")
+              "GetPartitionSequence is watermark-1 (C07_partition_sequence_exact); everything below the watermark a node derives from its log carries a quorum count "
+              "(C07_below_watermark_confirmed, via C08), and on a running node, after any sequence of confirmation reports, the watermark is the longest quorum prefix of the best count known "
+              "per version (C07_live_watermark_exact, C07_live_below_watermark_confirmed). Tie to the code: differential run of a real in-process ClusterActor over generated logs against the extracted model, plus a direct gating monitor.")
 LEVEL_NOTE = ("Trusted: Coq kernel, extraction (ExtrOcamlBasic), OCaml driver glue, Rust harness, the Python monitor. Theorems are about Model/ClusterRead.v; the storage iterators are modelled by "
               "their output (C03 is about them). Multi-node read forwarding is not executed. All theorems closed under the global context.")
 TECHNIQUE = "Coq proof of a hand-written Gallina model + differential correspondence check (extracted OCaml model vs a real in-process ClusterActor)"
